@@ -3,6 +3,9 @@
 From Eino Require Import Base.Util Model.Concat Model.ConcatMsg Proofs.Concat Proofs.ConcatRechunk.
 From Coq Require Import Sorting.Sorted.
 
+Section User.
+Context {U : UserFn} {L : UserLaw}.
+
 (* ------------------------------------------------------------------ small results *)
 
 Lemma fails_bind_l {A B} (r : res A) (k : A -> res B) : fails r -> fails (res_bind r k).
@@ -613,3 +616,5 @@ Proof.
   clear Hidx. induction HF as [|i m il mg Hm HF IH]; constructor; [|apply IH].
   apply merge_group_inv in Hm. destruct Hm as [id [ty [nm [_ [_ [_ ->]]]]]]. reflexivity.
 Qed.
+
+End User.
